@@ -1136,10 +1136,16 @@ class PyCdlib:
                                                 new_record.rock_ridge.bytes_to_skip,
                                                 True, new_record.file_identifier())
                     cdfp.seek(orig_pos)
-                    block = self.pvd.track_rr_ce_entry(ce_record.bl_cont_area,
-                                                       ce_record.offset_cont_area,
-                                                       ce_record.len_cont_area)
-                    new_record.rock_ridge.update_ce_block(block)
+                    # The continuation area of the root 'dot' record holds the
+                    # Rock Ridge 'ER' record.  It lives in a sector of its own
+                    # that is assigned separately when extents are reshuffled,
+                    # so it is not tracked as a general continuation block
+                    # (just like on a newly created ISO).
+                    if not (dir_record.is_root and new_record.is_dot()):
+                        block = self.pvd.track_rr_ce_entry(ce_record.bl_cont_area,
+                                                           ce_record.offset_cont_area,
+                                                           ce_record.len_cont_area)
+                        new_record.rock_ridge.update_ce_block(block)
 
                 if rr_cl:
                     child_links.append(new_record)
